@@ -296,6 +296,20 @@ def rewrite(m, src, util_src, registries, counts):
     src = expand_builders(src, util_src, counts)
     src = strip_macros(src)
     src = rw_mut_self(src, counts)
+    # R9: `for i in (A..B).rev() { body }`  ->  `{ let mut i__ = B; while i__ > A { i__ -= 1; let i = i__; body } }`
+    # (vstd gives Rev<Range<usize>> no usable ghost-iterator relation between the loop variable and the index)
+    while True:
+        mm = re.search(r'for (\w+) in \((\w+)\.\.([^()]+(?:\(\))?)\)\.rev\(\) \{', src)
+        if not mm:
+            break
+        b = mm.end() - 1
+        e = match_brace(src, b)
+        body = src[b + 1:e]
+        if re.search(r'\bcontinue\b', body):
+            raise ExtractError('R9: reverse range loop with `continue` is not supported')
+        counts['R9'] += 1
+        v, lo, hi = mm.group(1), mm.group(2), mm.group(3)
+        src = src[:mm.start()] + '{ let mut %s__ = %s; while %s__ > %s { %s__ -= 1; let %s = %s__;%s} }' % (v, hi, v, lo, v, v, v, body) + src[e + 1:]
     n = [0]
 
     def r1(mm):
@@ -349,6 +363,7 @@ def rewrite(m, src, util_src, registries, counts):
             src = src[:i] + src[j:]
     if m == 'common':
         src = src.replace("    fn from(e: cbor::de::Error<T>) -> Self {", "    #[verifier::external_body]\n    fn from(e: cbor::de::Error<T>) -> Self {")
+        src = src.replace("    fn from(_e: cbor::ser::Error<T>) -> Self {", "    #[verifier::external_body]\n    fn from(_e: cbor::ser::Error<T>) -> Self {")
         src = src.replace("    fn fmt_msg(&self", "    #[verifier::external]\n    fn fmt_msg(&self")
         src = src.replace("impl core::fmt::Debug for CoseError {", "#[verifier::external]\nimpl core::fmt::Debug for CoseError {")
         src = src.replace("impl core::fmt::Display for CoseError {", "#[verifier::external]\nimpl core::fmt::Display for CoseError {")
@@ -430,10 +445,16 @@ def merge(a_text, c_text, modname):
         M = token_map(btoks, b_text, ctoks, c_text)
     ends = [e for _, e, _ in btoks]
     import bisect
-    placed = {}   # c token index (insert before) -> [texts]
+    placed = {}   # c token index (insert before) -> [(offset within the trivia, text)]
     displaced = 0
+
+    def trivia(toks, text, j):
+        lo = toks[j - 1][1] if j > 0 else 0
+        hi = toks[j][0] if j < len(toks) else len(text)
+        return text[lo:hi]
     for off, text in ins:
         k = bisect.bisect_right(ends, off)       # number of B tokens that end at or before off
+        rel = off - (ends[k - 1] if k > 0 else 0)
         j = None
         if k > 0 and M[k - 1] is not None:
             j = M[k - 1] + 1
@@ -446,16 +467,19 @@ def merge(a_text, c_text, modname):
             while p >= 0 and M[p] is None:
                 p -= 1
             j = (M[p] + 1) if p >= 0 else 0
-        placed.setdefault(j, []).append(text)
+        # keep the position inside the whitespace/comments only when that text is unchanged
+        if trivia(btoks, b_text, k) != trivia(ctoks, c_text, j):
+            rel = 0
+        placed.setdefault(j, []).append((rel, text))
     out = []
     pos = 0
     for j in range(len(ctoks) + 1):
         if j in placed:
-            # emit directly after the previous token
-            cut = ctoks[j - 1][1] if j > 0 else 0
-            out.append(c_text[pos:cut])
-            pos = cut
-            for t in placed[j]:
+            base = ctoks[j - 1][1] if j > 0 else 0
+            for rel, t in placed[j]:
+                cut = base + rel
+                out.append(c_text[pos:cut])
+                pos = cut
                 tail = t.rsplit('\n', 1)[-1]
                 if '//' in tail:
                     t = t + '\n'
@@ -552,7 +576,7 @@ def generate(repo=REPO, contracts_dir=None, with_contracts=True):
         path = os.path.join(repo, 'src', m, 'mod.rs')
         src = open(path).read()
         info['inputs']['src/%s/mod.rs' % m] = sha(src)
-        counts = {k: 0 for k in ['R1', 'R2', 'R3', 'R4', 'R5', 'R6', 'R7', 'R8']}
+        counts = {k: 0 for k in ['R1', 'R2', 'R3', 'R4', 'R5', 'R6', 'R7', 'R8', 'R9']}
         c = rewrite(m, src, util_src, registries, counts)
         info['rewrites'][m] = counts
         plain[m] = c
@@ -590,7 +614,21 @@ if __name__ == '__main__':
     ap.add_argument('--out', default=os.path.join(VERIF, 'build/gen/coset_verus.rs'))
     ap.add_argument('--plain', action='store_true', help='no contracts: rewritten source only')
     ap.add_argument('--dump-plain', help='directory to write the rewritten modules to (to start a sidecar)')
+    ap.add_argument('--resync', action='store_true', help='rewrite every sidecar as the annotated copy of the CURRENT rewritten source')
     a = ap.parse_args()
+    if a.resync:
+        util_src = open(os.path.join(REPO, 'src/util/mod.rs')).read()
+        regs = []
+        for m in MODS:
+            counts = {k: 0 for k in ['R1', 'R2', 'R3', 'R4', 'R5', 'R6', 'R7', 'R8', 'R9']}
+            c = rewrite(m, open(os.path.join(REPO, 'src', m, 'mod.rs')).read(), util_src, regs, counts)
+            side = os.path.join(VERIF, 'contracts', m + '.rs')
+            g, mi = merge(open(side).read(), c, m)
+            g = re.sub(r'/\*@AUTO:[A-Za-z_:0-9]*\*/', '', g)
+            g = re.sub(r'/\*@A:[A-Za-z_:0-9?]*\*/', '', g)
+            open(side, 'w').write(g.replace(GOPEN, OPEN).replace(GCLOSE, CLOSE))
+            print(m, mi)
+        sys.exit(0)
     text, info = generate(with_contracts=not a.plain)
     os.makedirs(os.path.dirname(a.out), exist_ok=True)
     open(a.out, 'w').write(text)
